@@ -1,37 +1,119 @@
 """C11 — thread safety of the JIT memory manager and of independent code generation (DESIGN.md section 6, C11)."""
 import re
+import subprocess
 import vlib
 import ast_locks
 import gen_globals
+import gen_statics
 
 PID = "C11"
 MODS = ["AsmjitVerif.Props.C11"]
 MANIFEST = {
-    "technique": "Lean 4: lock-discipline and no-mutable-globals theorems by kernel evaluation over event trees / symbol lists regenerated "
-                 "from the clang AST and nm of the current tree + a generic linearisation theorem; threaded ASan/TSan runs judged by a Lean trace monitor",
+    "technique": "Lean 4: lock-discipline / no-mutable-globals / static-reference theorems by kernel evaluation over data regenerated from the "
+                 "clang AST, nm and objdump of the current tree; C09's sequential allocator model instantiated as the critical section of a "
+                 "generic thread model (every schedule = a sequential history accepted by C09's monitor); threaded ASan/TSan runs whose "
+                 "lock-order history (hook H2) is replayed by C09's model and judged by C09's monitor",
     "text": "(a) For every allocator/runtime operation documented thread-safe, Lean evaluates (decide +kernel) a lock-discipline analysis over the "
             "function bodies regenerated from clang's AST of the current jitallocator.cpp/jitruntime.cpp: every access to a mutable field of the "
             "shared records happens under the allocator's LockGuard through all callees, the lock is never taken twice, fields treated as immutable "
-            "are assigned only by constructors, and the library has no writable global outside a reviewed init-once list (nm of the current build). "
-            "(b) A generic theorem proves that operations that are atomic critical sections make every interleaving of any number of threads "
-            "equal to a sequential history with per-thread program order, so sequential invariants (C09) hold under every schedule. "
-            "(c) Tie/search: 2..16 threads on one allocator/runtime under ASan and TSan; the real-time trace is judged by the Lean monitor "
-            "(no two spans owned at the same time intersect; aligned; contents intact) and per-thread generated code equals single-threaded code.",
-    "note": "Trusted: tools/ast_locks.py (event extraction; the analysis itself is Lean), nm, the mutex providing mutual exclusion, the reviewed lists "
-            "(immutable fields, init-once globals, thread-safe entry points) in Props/C11.lean. Races the C++ memory model decides (init-once statics) "
-            "are tested with TSan on the explored schedules only, not proved. Lean cannot exhibit a data race: a broken discipline is reported with "
-            "the TSan/trace witness when one is found, else no-failing-input-found.",
+            "are assigned only by constructors. (b) No shared mutable state behind the API: every object in a writable data section of every "
+            "translation unit (objdump symbol tables: local, global, weak and unique symbols) is on a reviewed init-once list, there are no "
+            "thread-locals, and every relocation from machine code into a writable data section comes from a reviewed init-once accessor of "
+            "cpuinfo.cpp / virtmem.cpp or names a verification hook variable - so CodeHolder, emitters, Builder, Compiler, register allocator and "
+            "formatter code references const tables only (all_writable_statics_reviewed, only_reviewed_accessors_touch_statics, "
+            "codegen_units_share_nothing). (c) Generic theorems: operations that are atomic critical sections make every interleaving of any "
+            "number of threads a sequential history in per-thread program order (atomic_ops_linearise, program_order, invariant_under_every_"
+            "schedule[_wf]); instantiated with C09's actual step function as the critical section and alloc's lock-free prefix (alignment to "
+            "the immutable granularity, range check) as pre-phase: after EVERY schedule of ANY number of threads the allocator state is a "
+            "sequentially reachable state satisfying C09's invariant (jit_allocator_inv_under_every_schedule, jit_schedule_is_sequential_"
+            "history) and the observable trace (operation, answer, statistics read under the lock) is accepted by C09's monitor "
+            "(jit_monitor_accepts_every_schedule). (d) Tie/search: 2..16 threads on one allocator/runtime under ASan and TSan with seeded "
+            "random yields/sleeps (also inside the critical sections). With hook H2 the harness records every critical section in lock order "
+            "= the linearisation; the check feeds that SEQUENTIAL history to C09's monitor (must accept every answer and the statistics), "
+            "to C09's model (must give identical answers, statistics and final private block state: model = implementation on the linearised "
+            "history) and checks in Lean that each thread's program order, with the results the caller saw, is exactly that thread's "
+            "projection of the history. Without the hook the real-time trace monitor (no two spans owned at the same time intersect) is used. "
+            "Per-thread x86-64 and AArch64 Assembler/Builder/Compiler output (with logger text) equals the single-threaded output.",
+    "note": "Trusted: tools/ast_locks.py (event extraction; the analysis itself is Lean), objdump/nm, the mutex providing mutual exclusion, the "
+            "reviewed lists (immutable fields, init-once globals and their accessors, thread-safe entry points) in Props/C11.lean, the hook H2 "
+            "call sites being at the end of the critical sections (18 guarded lines, fixes/H2-hook.patch). Races the C++ memory model decides "
+            "(init-once statics) are tested with TSan on the explored schedules only, not proved. Lean cannot exhibit a data race: a broken "
+            "discipline is reported with the TSan/trace/linearisation witness when one is found, else no-failing-input-found. References "
+            "from data to data (a const table holding the address of a writable object) are not followed by gen_statics.py.",
 }
 
-CONFIGS_QUICK = [(2, 1500, 0x0, 64), (4, 1200, 0x1, 64), (8, 800, 0x2 | 0x4, 64), (16, 400, 0x8, 128), (6, 800, 0x20, 256)]
+#                threads, ops/thread, options, granularity, yield level
+CONFIGS_QUICK = [(2, 1500, 0x0, 64, 1), (4, 1200, 0x1, 64, 2), (8, 800, 0x2 | 0x4, 64, 1), (16, 400, 0x8, 128, 3), (6, 800, 0x20, 256, 0),
+                 (3, 900, 0x2 | 0x4 | 0x8, 64, 2)]
+TSAN_ENV = {"TSAN_OPTIONS": "halt_on_error=0:exitcode=66:second_deadlock_stack=1:history_size=7"}
 
 
-def run_threads(h, runs, res, label):
+def have_hook(plain_lib):
+    p = subprocess.run(["nm", str(plain_lib)], capture_output=True, text=True)
+    return re.search(r"\b[BbDd] asmjit_verif_jit_event\b", p.stdout) is not None
+
+
+def split_output(out):
+    """harness output -> dict of line groups"""
+    g = {"trace": [], "lin": [], "po": [], "hook": None, "problem": None}
+    for l in out:
+        if l.startswith("L "):
+            g["lin"].append(l)
+        elif l.startswith("P "):
+            g["po"].append(l)
+        elif l.startswith("hook "):
+            g["hook"] = l.split()[1] == "1"
+        elif l.startswith("linproblem "):
+            g["problem"] = l[len("linproblem "):]
+        else:
+            g["trace"].append(l)
+    return g
+
+
+def judge_linearisation(g, res, label):
+    """(i) C09 monitor accepts the history, (ii) C09 model answers identically, returns (problem or None, driver lines for (iii))"""
+    heads, ops, answers = [], [], []
+    for l in g["lin"]:
+        head, _, body = l.partition(" | ")
+        op, _, ans = body.partition(" => ")
+        heads.append(head.split())
+        ops.append(op)
+        answers.append(ans)
+    res.coverage["linearised_ops"] = res.coverage.get("linearised_ops", 0) + len(ops)
+    kinds = res.coverage.setdefault("input_distribution", {}).setdefault("linearised_op_kinds", {})
+    for o in ops:
+        k = o.split()[0]
+        kinds[k] = kinds.get(k, 0) + 1
+    # (i)
+    mon, rc, err = vlib.run_model("C09", ["mon %s => %s" % (o, a) for o, a in zip(ops, answers)], timeout=1500)
+    if len(mon) != len(ops):
+        return "%s: linearisation: C09 monitor gave %d verdicts for %d operations (rc=%s %s)" % (label, len(mon), len(ops), rc, err[-200:]), []
+    for i, m in enumerate(mon):
+        if m != "good":
+            return ("%s: linearisation: C09 monitor rejects critical section #%d (thread %s) `%s => %s`: %s" %
+                    (label, i, heads[i][1], ops[i], answers[i][:160], m)), []
+    if g["problem"]:      # the callback could not name the span of an event although the monitor accepted every answer
+        return "%s: linearisation: %s" % (label, g["problem"]), []
+    # (ii)
+    model, rc, err = vlib.run_model("C09", ops, timeout=1500)
+    d = vlib.first_diff(answers, model)
+    if d is not None:
+        return ("%s: linearisation: sequential model and implementation differ at critical section #%d (thread %s) `%s`: implementation `%s`, "
+                "model `%s`" % (label, d, heads[d][1] if d < len(heads) else "?", ops[d] if d < len(ops) else "?",
+                                (answers[d] if d < len(answers) else "<none>")[:300], (model[d] if d < len(model) else "<none>")[:300])), []
+    res.coverage["linearisations_replayed_by_model"] = res.coverage.get("linearisations_replayed_by_model", 0) + 1
+    # (iii) is judged by the C11 driver
+    drv = ["lin %s %s %s" % (h[1], h[2], h[3]) for h in heads if h[2] != "-"]
+    drv += ["po " + l[2:] for l in g["po"]]
+    return None, drv
+
+
+def run_threads(h, runs, res, label, env=None):
     """returns list of problems [(run line, message)]"""
     problems = []
-    for (n, ops, opts, gran, seed) in runs:
-        line = "run %d %d %d %x %d" % (n, ops, seed, opts, gran)
-        out, rc, err = vlib.run_lines([str(h)], [line], timeout=900, env={"TSAN_OPTIONS": "halt_on_error=0:exitcode=66:second_deadlock_stack=1"})
+    for (n, ops, opts, gran, yl, seed) in runs:
+        line = "run %d %d %d %x %d %d" % (n, ops, seed, opts, gran, yl)
+        out, rc, err = vlib.run_lines([str(h)], [line], timeout=900, env=env or TSAN_ENV)
         if "ThreadSanitizer" in err:
             m = re.search(r"WARNING: ThreadSanitizer: ([^\n]*)\n((?:.*\n){0,12})", err)
             problems.append((line, "%s: ThreadSanitizer: %s" % (label, (m.group(1) + " | " + " ".join(m.group(2).split())[:600]) if m else err[-600:])))
@@ -39,11 +121,21 @@ def run_threads(h, runs, res, label):
         if rc != 0:
             problems.append((line, "%s: harness aborted rc=%d: %s" % (label, rc, err[-800:])))
             continue
-        mon, rc2, _ = vlib.run_model("C11", ["cfg %d" % gran] + out)
-        res.coverage["evaluations"] += len([l for l in out if l.startswith("span")])
+        g = split_output(out)
+        drv = []
+        if g["hook"]:
+            p, drv = judge_linearisation(g, res, label)
+            if p:
+                problems.append((line, p))
+                continue
+        mon, rc2, _ = vlib.run_model("C11", ["cfg %d" % gran] + g["trace"][:-1] + drv + g["trace"][-1:])
+        res.coverage["evaluations"] += len([l for l in g["trace"] if l.startswith("span")]) + len(g["lin"])
         res.coverage["traces_validated_against_impl"] = res.coverage.get("traces_validated_against_impl", 0) + 1
+        res.coverage["code_generations_compared"] = res.coverage.get("code_generations_compared", 0) + \
+            sum(int(m.group(1)) for m in (re.search(r"runs=(\d+)", l) for l in g["trace"] if l.startswith("code")) if m)
         if len(res.coverage["samples"]) < 4:
-            res.add_samples([{"run": line, "first_trace_lines": out[:3], "end": out[-1:], "monitor": mon}])
+            res.add_samples([{"run": line, "flavour": label, "first_trace_lines": g["trace"][:2], "first_linearised": g["lin"][1:4],
+                              "end": g["trace"][-1:], "monitor": mon}])
         bad = [m for m in mon if not m.startswith("good")]
         if bad or not mon:
             problems.append((line, "%s: %s" % (label, (bad or ["monitor gave no verdict"])[0])))
@@ -53,8 +145,9 @@ def run_threads(h, runs, res, label):
 def generate():
     funcs, fields = ast_locks.collect(vlib.REPO)
     vlib.gen_write("AsmjitVerif/Gen/LockMap.lean", ast_locks.render(funcs, fields))
-    _, plain = vlib.ensure_lib("plain")
+    d, plain = vlib.ensure_lib("plain")
     vlib.gen_write("AsmjitVerif/Gen/Globals.lean", gen_globals.render(gen_globals.collect(plain)))
+    vlib.gen_write("AsmjitVerif/Gen/StaticRefs.lean", gen_statics.render(*gen_statics.collect(d / "obj")))
 
 
 def run(res):
@@ -66,11 +159,20 @@ def run(res):
         res.coverage["functions_in_lock_map"] = len(funcs)
     except Exception as e:
         broken.append("translator ast_locks: %s" % e)
+    hook = False
     try:
-        _, plain = vlib.ensure_lib("plain")
+        d, plain = vlib.ensure_lib("plain")
+        hook = have_hook(plain)
         names = gen_globals.collect(plain)
         vlib.gen_write("AsmjitVerif/Gen/Globals.lean", gen_globals.render(names))
         res.coverage["mutable_globals"] = names
+        try:
+            w, t, r = gen_statics.collect(d / "obj")
+            vlib.gen_write("AsmjitVerif/Gen/StaticRefs.lean", gen_statics.render(w, t, r))
+            res.coverage["static_refs"] = {"writable_objects": len(w), "thread_locals": len(t), "code_references_into_writable_sections": len(r),
+                                           "functions_referencing": sorted({x[1].split("(")[0] for x in r if not x[2].startswith("asmjit_verif_")})}
+        except Exception as e:
+            broken.append("translator gen_statics: %s" % e)
     except vlib.BuildError:
         raise
     except Exception as e:
@@ -82,39 +184,67 @@ def run(res):
             broken.append("theorem %s (%s:%s) no longer checks: %s" % (ft.get("decl"), ft.get("file"), ft.get("line"), ft.get("msg")))
         vlib.lake_build(["vdriver"])
     res.assumptions += ["the mutex (pthread) provides mutual exclusion", "clang-14 AST faithfully lists member accesses and calls in source order",
-                        "init-once statics are benign (atomic flags); the property itself is stated 'once the host information has been initialised'"]
+                        "init-once statics are benign (atomic flags); the property itself is stated 'once the host information has been initialised'",
+                        "objdump lists every relocation of the code sections; data-to-data references are not followed"]
+    res.coverage["linearisation"] = ("hook H2 present: every critical section recorded in lock order; history replayed by C09's model and judged by "
+                                     "C09's monitor; program order checked by the Lean driver") if hook else \
+        ("hook H2 (asmjit_verif_jit_event) is NOT in the library: fell back to the real-time trace monitor (overlap of lifetimes/addresses); "
+         "the refinement to C09 on the linearised history was not run")
+    if not hook:
+        vlib.log("[C11] hook H2 absent in this tree: falling back to the real-time trace monitor")
 
     quick = res.tier == "quick"
-    cfgs = CONFIGS_QUICK if quick else [(n, ops * 4, o, g) for (n, ops, o, g) in CONFIGS_QUICK] + \
-        [(rng.choice((2, 3, 5, 12, 16)), 3000, rng.randrange(64) & ~0x10, rng.choice((64, 128, 256))) for _ in range(12)]
-    runs = [(n, ops, o, g, rng.randrange(1 << 30)) for (n, ops, o, g) in cfgs]
+    cfgs = list(CONFIGS_QUICK)
+    if not quick:
+        cfgs = [(n, ops * 3, o, g, y) for (n, ops, o, g, y) in CONFIGS_QUICK] + \
+            [(rng.choice((2, 3, 5, 7, 12, 16)), 2500, rng.randrange(64) & ~0x10, rng.choice((64, 128, 256)), rng.randrange(4)) for _ in range(12)]
+    runs = [(n, ops, o, g, y, rng.randrange(1 << 30)) for (n, ops, o, g, y) in cfgs]
     if broken:   # a broken obligation: search harder for a witness
-        runs = runs + [(16, 4000, o, g, rng.randrange(1 << 30)) for (_, _, o, g) in CONFIGS_QUICK]
-    res.coverage["rule"] = ("threads x ops x allocator options x granularity from a fixed list plus seeded random ones; an evaluation = one allocation "
-                            "record of the real-time trace judged by the Lean monitor; non-trivial = run with >= 2 threads whose trace has spans from "
-                            "every thread; the same runs are repeated under ThreadSanitizer")
-    h_asan = vlib.build_harness("c11", "asan")
+        runs = runs + [(16, 3000, o, g, 2, rng.randrange(1 << 30)) for (_, _, o, g, _) in CONFIGS_QUICK[:5]]
+    res.coverage["rule"] = ("threads x ops x allocator options x granularity x yield level from a fixed list plus seeded random ones; an evaluation = "
+                            "one allocation record of the real-time trace or one critical section of the linearised history judged by a Lean "
+                            "monitor; non-trivial = run with >= 2 threads whose trace has spans from every thread; runs are repeated under "
+                            "ThreadSanitizer (history_size=7) with other seeds, thread counts 2..16 and random yields")
+    flags = ["-DC11_H2"] if hook else []
+    h_asan = vlib.build_harness("c11", "asan", extra_flags=flags)
     problems = run_threads(h_asan, runs, res, "asan")
-    h_tsan = vlib.build_harness("c11", "tsan")
-    problems += run_threads(h_tsan, runs if not quick else runs[:3], res, "tsan")
-    res.coverage["distinct_nontrivial"] = len(set(runs))
-    res.coverage["input_distribution"] = {"runs": len(runs), "threads": sorted({r[0] for r in runs}), "options": sorted({r[2] for r in runs})}
+    h_tsan = vlib.build_harness("c11", "tsan", extra_flags=flags)
+    # schedule diversity under TSan: other seeds, every thread count 2..16 over the tiers, all yield levels
+    if quick:
+        tcfg = [(2, 500, 0x0, 64, 2), (5, 400, 0x2 | 0x4, 64, 1), (16, 150, 0x8, 128, 3), (rng.randrange(3, 16), 300, 0x1, 64, rng.randrange(4))]
+    else:
+        tcfg = [(n, 500, rng.choice((0x0, 0x1, 0x2 | 0x4, 0x8, 0x2 | 0x8, 0x4 | 0x20)), rng.choice((64, 128, 256)), rng.randrange(4)) for n in range(2, 17)]
+        tcfg += [(n, ops, o, g, y) for (n, ops, o, g, y) in CONFIGS_QUICK]
+    truns = [(n, ops, o, g, y, rng.randrange(1 << 30)) for (n, ops, o, g, y) in tcfg]
+    if broken:
+        truns += [(16, 1500, o, g, 3, rng.randrange(1 << 30)) for (_, _, o, g, _) in CONFIGS_QUICK[:4]]
+    problems += run_threads(h_tsan, truns, res, "tsan")
+    if hook and not problems:
+        # the hook callback must not hide anything from TSan: the same binary's sibling without the hook (plain trace mode)
+        h_tsan0 = vlib.build_harness("c11", "tsan")
+        problems += run_threads(h_tsan0, truns[:2] if quick else truns[:8], res, "tsan-nohook")
+    res.coverage["distinct_nontrivial"] = len(set(runs)) + len(set(truns))
+    res.coverage.setdefault("input_distribution", {}).update(
+        {"runs": len(runs) + len(truns), "threads": sorted({r[0] for r in runs + truns}), "options": sorted({r[2] for r in runs + truns}),
+         "yield_levels": sorted({r[4] for r in runs + truns}), "tsan_runs": len(truns), "hook_H2": hook})
 
     if problems:
         line, msg = problems[0]
         res.violation("concurrent use breaks the property on the real code: %s (%d failing runs)%s" % (
             msg, len(problems), ("; also: " + " | ".join(broken)) if broken else ""),
-            {"ops": [line], "how": "harness c11 (asan or tsan flavour) on this line; schedules are not replayable, repeat the run",
-             "unchecked": broken}, True, key="race:" + msg.split(":")[0])
+            {"ops": [line], "how": "harness c11 (asan or tsan flavour%s) on this line; schedules are not replayable, repeat the run" %
+             (", built with -DC11_H2" if hook else ""), "unchecked": broken, "all": [m for _, m in problems][:8]}, True, key="race:" + msg.split(":")[0])
     elif broken:
         res.violation("proof obligation no longer checks: " + " | ".join(broken)[:1500] +
-                      " -- no race or overlapping span was observed in %d threaded runs (ASan+TSan)" % len(runs),
+                      " -- no race, overlapping span, rejected or diverging linearisation was observed in %d threaded runs (ASan+TSan)" % (len(runs) + len(truns)),
                       {"unchecked": broken}, False, key="obligation")
 
 
 def replay(data):
-    h = vlib.build_harness("c11", "tsan")
+    _, plain = vlib.ensure_lib("plain")
+    flags = ["-DC11_H2"] if have_hook(plain) else []
+    h = vlib.build_harness("c11", "tsan", extra_flags=flags)
     for line in data["replay"].get("ops", []):
-        out, rc, err = vlib.run_lines([str(h)], [line])
+        out, rc, err = vlib.run_lines([str(h)], [line], env=TSAN_ENV)
         print(line, "->", out[-1:] if out else None, rc, err[-800:])
     return 0
